@@ -593,7 +593,7 @@ class Unit:
         k = 0
         while k < len(block):
             lno, ln = block[k]
-            if ln.startswith("//@rewrite"):
+            if ln.startswith("//@rewrite") or ln.startswith("//@sig-rewrite") or ln.startswith("//@pre-rewrite"):
                 rewrites.append(_parse_rewrite(ln, self.vc_path, lno - 1)); k += 1; continue
             if ln.startswith("//@replace-stmts"):
                 m = re.match(r"//@replace-stmts\s+`(.*?)`\s+x(\d+)\s*=>\s*`(.*)`\s*$", ln)
@@ -662,6 +662,7 @@ class Unit:
             if mwh:
                 wh = " " + rt[mwh.start():]; rt = rt[:mwh.start()].strip()
             sig = toks_text(stoks[:arrow]).rstrip() + " -> (%s: %s)%s" % (ret, rt, wh)
+        sig = rewrite_types(sig, self.counts)
         for (frm, to, expect, _w) in [r for r in rewrites if r[3] == "sig"]:
             sig = apply_literal_rewrite(sig, frm, to, expect, self.counts, "%s sig" % path)
         # body rewrites
@@ -670,9 +671,13 @@ class Unit:
             self.dropped.append("fn %s (%s:%d): body NOT verified (external, trusted spec)" % (path, rel, src_line))
             self.counts.add("R7.external-body")
         else:
-            new_body = rewrite_builtin(body, self.counts, mutable=(mutself or any(o.startswith("mutarg=") for o in opts)))
+            pre_body = body
             for (frm, to, expect, where) in rewrites:
-                if where == "sig": continue
+                if where == "pre":
+                    pre_body = apply_literal_rewrite(pre_body, frm, to, expect, self.counts, path)
+            new_body = rewrite_builtin(pre_body, self.counts, mutable=(mutself or any(o.startswith("mutarg=") for o in opts)))
+            for (frm, to, expect, where) in rewrites:
+                if where in ("sig", "pre"): continue
                 if where == "unit":
                     # unit-wide rewrites apply where they match; zero matches allowed
                     try:
@@ -805,7 +810,8 @@ def _stmts_end(text, start, count):
             elif t.kind == "p" and t.text in ")]}":
                 depth -= 1
                 if depth < 0:
-                    raise AnchorLost("replace-stmts: statement runs past the end of its block")
+                    # tail expression of the enclosing block: it ends right before the closing brace
+                    return code[i - 1].end
                 if depth == 0 and t.text == "}" and blocklike:
                     nxt = code[i + 1].text if i + 1 < len(code) else ""
                     if nxt not in (".", "?", "else", ";"):
@@ -847,10 +853,10 @@ def _depth_between(toks, off, idx):
 
 
 def _parse_rewrite(ln, path, i):
-    m = re.match(r"//@(unit-rewrite|rewrite|sig-rewrite)\s+`(.*?)`\s*=>\s*`(.*?)`\s*(x(\d+))?\s*$", ln)
+    m = re.match(r"//@(unit-rewrite|rewrite|sig-rewrite|pre-rewrite)\s+`(.*?)`\s*=>\s*`(.*?)`\s*(x(\d+))?\s*$", ln)
     if not m:
         raise AnchorLost("%s:%d: bad rewrite directive" % (path, i + 1))
-    where = {"unit-rewrite": "unit", "rewrite": "fn", "sig-rewrite": "sig"}[m.group(1)]
+    where = {"unit-rewrite": "unit", "rewrite": "fn", "sig-rewrite": "sig", "pre-rewrite": "pre"}[m.group(1)]
     return (m.group(2), m.group(3), int(m.group(5)) if m.group(5) else (None if where == "unit" else 1), where)
 
 
